@@ -205,6 +205,14 @@ class Run:
 
     # -- operations ----------------------------------------------------------------------------------
     def step(self, op: list) -> None:
+        try:
+            self._step(op)
+        except Violation:
+            raise
+        except Exception as e:  # noqa: BLE001 - no peer-graph operation on legal arguments may raise
+            self.fail("L0", f"raises:{op[0]}", f"{op[0]} raised {type(e).__name__}: {e}")
+
+    def _step(self, op: list) -> None:
         kind = op[0]
         A = _addr_universe()
         if kind == "add":
